@@ -186,6 +186,32 @@ def giveLineSolves (l : Lvl) (gxS gtS : String) (outF : Array Float) : Nat × Na
     if same sol (SmootherGiveCode.radialSeg nr nt nc nxt j) then eq := eq + 1 else if first.isEmpty then first := s!"radial {j}"
   return (lines, eq, first)
 
+/-- exact LDLᵀ of a small dense symmetric matrix: are all pivots positive?  (implementation oracle for C05's clause "the line
+    blocks the smoothers factorise inherit both properties": the matrix handed in is the one the REAL line solver stores) -/
+def ldlPos (n : Nat) (a : Nat → Nat → Rat) : Bool := Id.run do
+  let mut M : Array (Array Rat) := Array.ofFn (n := n) fun i => Array.ofFn (n := n) fun j => a i.val j.val
+  for k in [0:n] do
+    let p := M[k]![k]!
+    if p ≤ 0 then return false
+    for i in [k+1:n] do
+      let f := M[i]![k]! / p
+      if f != 0 then
+        let rk := M[k]!
+        let mut ri := M[i]!
+        for j in [k+1:n] do
+          ri := ri.set! j (ri[j]! - f * rk[j]!)
+        M := M.set! i ri
+  return true
+
+/-- the symmetric (cyclic) tridiagonal matrix a line solver stores: main diagonal, sub-diagonal, optional corner element -/
+def triDense (m b : Array Float) (c : Option Float) (i j : Nat) : Rat :=
+  let n := m.size
+  if i == j then floatToRat m[i]!
+  else if i + 1 == j then floatToRat (b.getD i 0)
+  else if j + 1 == i then floatToRat (b.getD j 0)
+  else if (i == 0 ∧ j + 1 == n ∨ j == 0 ∧ i + 1 == n) ∧ n > 2 then (match c with | some cv => floatToRat cv | none => 0)
+  else 0
+
 def step (st : St) (line : String) : IO St := do
   let toks := fields line
   match toks with
@@ -229,6 +255,9 @@ def step (st : St) (line : String) : IO St := do
       match c with
       | some cv => acc := cmp s!"circle {i} corner" cv (circleCorner o i) (circleCorner oa i).v (circleCorner oF i) acc
       | none => stats ← check stats false fun _ => s!"{tag}: circle {i} solver is not cyclic"
+      if !ldlPos m.size (triDense m b c) then
+        IO.println s!"ORACLE C05 the cyclic tridiagonal matrix the real line solver of circle {i} stores is not positive definite (exact LDL^T of the stored entries has a non-positive pivot): {tag}"
+        st := { st with oracleFails := st.oracleFails + 1 }
     -- radial matrices
     let rms := ((kv rest "rm").getD "").splitOn ";"
     if rms.length != nt then
@@ -243,6 +272,9 @@ def step (st : St) (line : String) : IO St := do
         acc := cmp s!"radial {j} main[{t}]" m[t]! (mm.getD t 0) (ma.getD t ⟨0⟩).v (mF.getD t 0) acc
       for t in [0:b.size] do
         acc := cmp s!"radial {j} sub[{t}]" b[t]! (sm.getD t 0) (sa.getD t ⟨0⟩).v (sF.getD t 0) acc
+      if !ldlPos m.size (triDense m b none) then
+        IO.println s!"ORACLE C05 the tridiagonal matrix the real line solver of radial line {j} stores is not positive definite (exact LDL^T of the stored entries has a non-positive pivot): {tag}"
+        st := { st with oracleFails := st.oracleFails + 1 }
     -- innermost circle, CSR rows in storage order
     let inner := (kv rest "inner").getD "-"
     let ents : List (Nat × Nat × Float) := if inner == "-" then [] else (inner.splitOn ",").map fun e => match e.splitOn ":" with
